@@ -201,6 +201,10 @@ func HandlerWaiting(
 	ctx context.Context, mach am.Api, req *WaitingReq,
 ) (*WaitingResp, error) {
 	resp := &WaitingResp{WaitingRespUnsafe{Kind: KindRespWaiting}}
+	// the context is optional
+	if ctx == nil {
+		ctx = context.Background()
+	}
 
 	// validate
 	lenTime := len(req.Time)
